@@ -210,17 +210,21 @@ Definition l_tm_sample (top left tl : Z) : Z := clip8 (add16 (sub16 top tl) left
 (** * AddGreenToBlueAndRed / SubtractGreen on one ARGB pixel given as bytes
     Go: packed uint32 arithmetic with masks; SSE2: byte-wise [PADDB]/[PSUBB]. *)
 Definition argb_of (a r g b : Z) : Z := ((a * 256 + r) * 256 + g) * 256 + b.
+(** The Go masks and shifts on a uint32 [p], written arithmetically:
+    [p & 0x00ff00ff], [p & 0xff00ff00], and [|] of disjoint fields is [+]. *)
+Definition and_00ff00ff (p : Z) : Z := p mod 256 + ((p / 65536) mod 256) * 65536.
+Definition and_ff00ff00 (p : Z) : Z := ((p / 256) mod 256) * 256 + ((p / 16777216) mod 256) * 16777216.
 Definition add_green_go (p : Z) : Z :=
   let green := (p / 256) mod 256 in
-  let rb := ((Z.land p 16711935 (* 0x00ff00ff *)) + green * 65537) mod 4294967296 in
-  Z.lor (Z.land p 4278255360 (* 0xff00ff00 *)) (Z.land rb 16711935).
+  let rb := (and_00ff00ff p + green * 65537) mod 4294967296 in
+  and_ff00ff00 p + and_00ff00ff rb.
 Definition add_green_lanes (a r g b : Z) : Z :=
   argb_of a ((r + g) mod 256) g ((b + g) mod 256).
 Definition sub_green_go (p : Z) : Z :=
   let green := (p / 256) mod 256 in
   let r := (((p / 65536) mod 256) - green) mod 4294967296 in
   let b := ((p mod 256) - green) mod 4294967296 in
-  Z.lor (Z.lor (Z.land p 4278255360) ((Z.land r 255) * 65536)) (Z.land b 255).
+  and_ff00ff00 p + (r mod 256) * 65536 + b mod 256.
 Definition sub_green_lanes (a r g b : Z) : Z :=
   argb_of a ((r - g) mod 256) g ((b - g) mod 256).
 
